@@ -232,7 +232,18 @@ def check(prog: Program, run: Run) -> None:
         x.targets[0], ast.Subscript) and "req_resp_cache" in ast.unparse(x.targets[0].value)]
     if len(stores) == 1 and ast.unparse(stores[0].targets[0].slice) == ps[1] and \
             ps[2] in ast.unparse(stores[0].value):
-        run.ok("C14.R1", "_update_cache", "cache[request] = response", u.loc)
+        ucfg = CFG(u.node)
+        dep = [t for t, _p in ucfg.branch_conditions(ucfg.node_of(stores[0])) if any(
+            isinstance(y, ast.Name) and y.id in ps[1:] for y in ast.walk(t))]
+        if dep:
+            run.violation("C14.R1", "VariantMatcher._update_cache", "store-depends-on-content",
+                          f"the response is only remembered under `{ast.unparse(dep[0])}`: for "
+                          "the other responses the same request is issued again for every "
+                          "further parameter or candidate that needs it (with caching no "
+                          "request is issued twice)", u.loc)
+        else:
+            run.ok("C14.R1", "_update_cache", "cache[request] = response, whatever the "
+                   "response is", u.loc)
     else:
         run.violation("C14.R1", "VariantMatcher._update_cache", "store",
                       "_update_cache does not store the response under the request bytes", u.loc)
@@ -286,6 +297,23 @@ def _accumulation(run: Run, f: FuncInfo, cfg: CFG, cand: ast.For, pat: ast.For, 
         inner = [l for l in loops if any(z is stmt for z in ast.walk(l))]
         inner.sort(key=lambda l: sum(1 for _ in ast.walk(l)))
         return inner[0] if inner else None
+    # every pattern of a candidate is evaluated in the candidate's own context: no way round the
+    # parameter loop inside the pattern loop (a pattern equal to one that was rejected for
+    # another candidate refers to that candidate's services, not to this one's)
+    ph, qh = cfg.node_of(pat), cfg.node_of(par)
+    entry = [s_ for s_ in cfg.succ[ph] if any(
+        cfg.nodes[s_].stmt is z for b in pat.body for z in ast.walk(b))]
+    skipped = [e for e in entry if e != qh and not cfg.must_pass(e, [qh], ph)]
+    if skipped:
+        run.violation(R, "VariantMatcher.request_loop", "pattern-skipped",
+                      "the pattern loop can go on to the next pattern without evaluating the "
+                      "matching parameters of the current one (a `continue` in front of the "
+                      "parameter loop): a pattern is then judged by something else than the "
+                      "responses to its own candidate's requests",
+                      f"{f.module.rel}:{pat.lineno}", stmt_key(pat))
+    else:
+        run.ok(R, "VariantMatcher.request_loop", "every pattern reaches its parameter loop",
+               f"{f.module.rel}:{pat.lineno}")
     # the statement that records the match
     match_assign = [x for x in ast.walk(cand) if isinstance(x, ast.Assign) and ast.unparse(
         x.targets[0]) == "self._matching_variant"]
